@@ -40,6 +40,8 @@ type Contract struct {
 	Func       string // "GetInputPrice", "Keeper.swapCoins", "*Keeper.Foo" is written as "Keeper.Foo"
 	Properties []string
 	Returns    []string
+	Params     []string // contract's names of the parameters (receiver excluded), positional
+	HasParams  bool
 	Requires   []*Clause
 	Ensures    []*Clause
 	Invariants []*Clause
@@ -154,6 +156,17 @@ func ParseSpecFile(path string) (*SpecFile, error) {
 		switch rc.kw {
 		case "func":
 			cur = &Contract{File: path, Func: strings.TrimSpace(rc.text), Line: rc.line}
+			// func Name(a, b, c): the names this contract uses for the parameters, bound by position (a renamed
+			// parameter keeps its contract)
+			if p := strings.Index(cur.Func, "("); p >= 0 && strings.HasSuffix(cur.Func, ")") {
+				cur.HasParams = true
+				for _, n := range strings.Split(cur.Func[p+1:len(cur.Func)-1], ",") {
+					if n = strings.TrimSpace(n); n != "" {
+						cur.Params = append(cur.Params, n)
+					}
+				}
+				cur.Func = strings.TrimSpace(cur.Func[:p])
+			}
 			curLemma = nil
 			sf.Contracts = append(sf.Contracts, cur)
 		case "end":
